@@ -133,6 +133,7 @@ def contents_by_name(spec, W):
 
 class Harness(cm.BaseA):
     id = "C05"
+    fresh_quick = True  # every transition is re-executed from a fresh world (hidden state, aliasing)
     rule = (
         "every sequence of <= depth core operations (transfer / distribute / dispense with known composition / "
         "aspirate / remove) followed by any one operation of the full alphabet, for three naming configurations "
